@@ -1514,12 +1514,18 @@ impl World {
         if objs.is_empty() {
             return Ok(());
         }
-        let uuid = objs[id_sel as usize % objs.len()].clone();
+        let mut uuid = objs[id_sel as usize % objs.len()].clone();
         let f = fields.as_object().cloned().unwrap_or_default();
+        if kind == 3 && id_sel % 3 == 0 {
+            // create_object under an identifier the replica does not know yet
+            uuid = format!("n{}", id_sel % 7);
+        }
         let res = self.call("objop", || match kind {
             0 => m.update_object(&uuid, f).map(|_| ()),
             1 => m.delete_object(&uuid).map(|_| ()),
-            _ => m.remove_object(&uuid).map(|_| ()),
+            2 => m.remove_object(&uuid).map(|_| ()),
+            // create_object on a new or on an existing identifier (a second creation revision)
+            _ => m.create_object(&uuid, f).map(|_| ()),
         })?;
         self.replicas[r].model_doc = None;
         self.bump("probe.objop");
